@@ -87,6 +87,8 @@ def dict_del(I, d, k):
 def contains(I, container, item):
     if isinstance(container, Opaque) or isinstance(item, Opaque):
         return Opaque("in")
+    if M.dictobj(container) is not None and I.class_attr(container.cls, "__contains__") is dict.__contains__:
+        container = M.dictobj(container)
     if isinstance(container, (dict, set, frozenset)):
         if isinstance(container, dict):
             return find_key(I, container, item) is not _MISSING
